@@ -43,6 +43,29 @@ CLAIMS = {
              "the bounds are unsatisfiable over Q (and Z with integer tightening). Tie: LASolver::storeExplanation's bounds "
              "and coefficients of every conflict in traced LRA/LIA/UFLRA/UFLIA runs go through the executable conflictCheck.",
         design_ref="5 C26"),
+    "C02": dict(
+        technique="Lean 4 proof (sat acceptance: roots evaluated from atom values; validated model is a model) tied by trace refinement and Lean evaluation of printed models",
+        text="Theorems Smt.sat_sound (an accepted sat answer's Boolean model makes every root true from the atom values alone, "
+             "no CNF encoding or variable elimination trusted) and C02_validated_model (a printed model under which the Lean "
+             "evaluator makes every assertion true is a model). Tie: every sat answer of traced runs must be accepted; every "
+             "printed model of a corpus with big constants / LIA / IDL emphasis is evaluated on all active assertions. Partial: "
+             "completeness of the theory solvers' final check is certified per run by the validated model, not proved; array "
+             "logics are excluded.",
+        design_ref="5 C02"),
+    "C03": dict(
+        technique="Lean 4 evaluator as specification (eval = SMT-LIB semantics) applied to every printed model, value and active assertion",
+        text="The printed model is read as definitions with bodies and denotes Model.interp; theorem C03_model_satisfies: the "
+             "executable check is exactly Sat. Tie: for every sat answer of generated scripts/histories the model must define "
+             "every declared symbol, make every active assertion true, give constants values of their sort, and get-value must "
+             "agree with it. Abstracted: value extraction inside Egraph/Simplex/STP (validated per run).",
+        design_ref="5 C03"),
+    "C05": dict(
+        technique="Lean 4 proof (machine theorems quantify over all schedulers; unsat vs validated model contradiction) plus differential runs over configurations",
+        text="Corollaries C05_unsat_vs_model / C05_no_contradiction of the C01/C02 machine theorems, which hold for every accepted "
+             "event sequence whatever engine, seed, restart policy or tracking option produced it. Tie/search: each generated "
+             "input is run under k option vectors (seed, lookahead, picky, ghost, SatELite, tracking, substitutions, restarts, "
+             "ccmin) and under more expressive logics; any sat/unsat pair is a violation.",
+        design_ref="5 C05"),
 }
 
 PENDING = "not yet built in this round; design in DESIGN.md section 5, construction order in section 10"
